@@ -53,7 +53,32 @@ type faulty struct {
 	seen      *[]codes.Code
 	onPutDone func(d digest.Digest, err error)
 	onFM      func(asked digest.Set, missing digest.Set, err error)
+	puts      *putCounter
 }
+
+// putCounter counts the uploads into a backend that are in progress at the same time (an upload whose buffer is a
+// stream clone stays in progress until the other clone's consumer has read the data).
+type putCounter struct {
+	active, maxActive int
+	perKey            map[string]int
+	maxPerKey         int
+}
+
+func (c *putCounter) enter(k string) {
+	c.active++
+	if c.active > c.maxActive {
+		c.maxActive = c.active
+	}
+	if c.perKey == nil {
+		c.perKey = map[string]int{}
+	}
+	c.perKey[k]++
+	if c.perKey[k] > c.maxPerKey {
+		c.maxPerKey = c.perKey[k]
+	}
+}
+
+func (c *putCounter) leave(k string) { c.active--; c.perKey[k]-- }
 
 func (f *faulty) inject(op string) error {
 	vsched.Yield("backend." + op)
@@ -93,6 +118,11 @@ func (f *faulty) Put(ctx context.Context, d digest.Digest, b bufferT) error {
 			f.onPutDone(d, err)
 		}
 		return err
+	}
+	if f.puts != nil {
+		k := d.GetKey(digest.KeyWithoutInstance)
+		f.puts.enter(k)
+		defer f.puts.leave(k)
 	}
 	err := f.BlobAccess.Put(ctx, d, b)
 	if f.onPutDone != nil {
@@ -225,6 +255,10 @@ func newTWorld(fallback bool, repl string, placement int) *tworld {
 	}
 	f := &faulty{BlobAccess: w.front, name: frontName, budget: &w.budget, seen: &w.seen}
 	b := &faulty{BlobAccess: w.back, name: backName, budget: &w.budget, seen: &w.seen}
+	// Both backends hand out byte-slice-backed or (free choice) reader-backed buffers (see rworld).
+	if vsched.ChooseFree("backend buffers", 2) == 1 {
+		w.front.Streaming, w.back.Streaming = true, true
+	}
 	if fallback {
 		w.ba = readfallback.NewReadFallbackBlobAccess(f, b, mkReplicator(repl, b, f, nil))
 	} else {
@@ -436,6 +470,7 @@ type rworld struct {
 	calls        []*callRec
 	source, sink *sim.ModelBlobAccess
 	cnt          *counting
+	puts         putCounter
 	repl         replication.BlobReplicator
 	clock        int
 	events       []event
@@ -456,7 +491,10 @@ func newRWorld(kind string, sinkHas int, faults int) *rworld {
 		}
 	}
 	src := &faulty{BlobAccess: w.source, name: "source", budget: &w.budget, seen: &w.seen}
-	snk := &faulty{BlobAccess: w.sink, name: "sink", budget: &w.budget, seen: &w.seen}
+	snk := &faulty{BlobAccess: w.sink, name: "sink", budget: &w.budget, seen: &w.seen, puts: &w.puts}
+	// The source hands out byte-slice-backed or (free choice) reader-backed buffers: with the latter a copy that
+	// is attached to a returned buffer as a background task runs while the caller consumes the buffer.
+	w.source.Streaming = vsched.ChooseFree("source buffers", 2) == 1
 	snk.onPutDone = func(d digest.Digest, err error) {
 		w.clock++
 		if err == nil {
@@ -609,7 +647,15 @@ func rbody(kind string, callers [][]int, sinkHas, faults int, cancelOne bool, si
 				failf("limit2:more-concurrent-copies-than-configured", "%d base replications in progress at the same time (limit 2)", w.cnt.maxActive)
 			}
 		}
-		vsched.Obs("maxActive=%d maxPerKey=%d calls=%d", w.cnt.maxActive, w.cnt.maxPerKey, w.cnt.calls)
+		// The same limits, measured at the sink: uploads into the sink that are in progress at the same time.
+		limitPuts := map[string]int{"limit": 1, "queued": 1, "limit2": 2}[kind]
+		if limitPuts > 0 && w.puts.maxActive > limitPuts {
+			failf(kind+":more-concurrent-copies-into-the-sink-than-configured", "%d uploads into the sink were in progress at the same time (limit %d)", w.puts.maxActive, limitPuts)
+		}
+		if kind == "dedup" && w.puts.maxPerKey > 1 {
+			failf("dedup:concurrent-copies-of-one-object-into-the-sink", "%d uploads of the same object into the sink were in progress at the same time", w.puts.maxPerKey)
+		}
+		vsched.Obs("maxActive=%d maxPerKey=%d calls=%d puts=%d/%d", w.cnt.maxActive, w.cnt.maxPerKey, w.cnt.calls, w.puts.maxActive, w.puts.maxPerKey)
 	}
 }
 
@@ -748,6 +794,7 @@ func main() {
 			{"two-same-cancel", [][]int{{0}, {0}}, 0, 0, true, false, false},
 			{"three-cancel-fault", [][]int{{0}, {0, 1}, {1}}, 0, 1, true, false, false},
 			{"single-and-multiple", [][]int{{0}, {0}}, 0, 1, false, true, false},
+			{"two-single", [][]int{{0}, {1}}, 0, 0, false, true, false}, // read-through copies of two objects whose buffers are consumed by the callers
 			{"two-composite", [][]int{{0}, {1}}, 0, 0, false, false, true}, // copies started by composite reads count against the limit too
 			{"composite-and-multiple", [][]int{{0}, {1}, {0}}, 0, 1, false, false, true},
 		} {
